@@ -131,6 +131,27 @@ CLAIMS = {
    note=COMMON_NOTE + "PARTIAL: derived impls rely on serde_derive and serde_json float round-trip (trusted, exercised). JSON cannot carry "
         "NaN/inf: such states are skipped and counted.",
    ref="DESIGN.md §5 C13"),
+
+ "C19": dict(cat="proof", tech="translator-listed unsafe sites + Lean 4 in-bounds proofs under the window invariant + bit-identical cross-build differential run",
+   text="The translator lists every get_unchecked*/ptr::copy outside tests with its index expression on every run; a theorem over that "
+        "list shows it contains only the analysed sites. For each site the model's index expression is proved inside the buffer under "
+        "the C01 invariant (push/oldest, newest, Index via slice_index, both iterator cursors) and SMM's branch-free ptr::copy arm is "
+        "proved equal to the safe copy_within arm with source and destination ranges inside the slice. The unsafe_performance build is "
+        "compared bit-for-bit with the default build on identical programs (windows of every capacity, all methods, API routes, "
+        "snapshots, all indicators) and replayed through the model.",
+   note=COMMON_NOTE + "PARTIAL: memory safety of the compiled artefact is a runtime fact; it rests on the trusted Rust semantics of "
+        "get_unchecked/ptr::copy for in-bounds arguments plus the differential run (std's debug precondition checks abort on an "
+        "out-of-bounds unchecked access, which the run would surface).",
+   ref="DESIGN.md §5 C19"),
+ "C20": dict(cat="proof", tech="width-parametric Lean 4 theorems (arbitrary PeriodType maximum, arbitrary ordered field) + bit-identical cross-build differential runs + model replay at wide period / single precision",
+   text="All window/method/constructor theorems are stated for an arbitrary maximum P of PeriodType and an arbitrary ordered field, so they "
+        "hold for u8..u64 and do not mention float width; explicit corollaries: the invariant, new, get and Index do not depend on P for "
+        "capacities the narrow type accepts, HMA's sqrt length always fits. Builds with period_type_u16/u32/u64 (thorough: also with "
+        "unsafe_performance) must be bit-identical to the default build on identical programs with parameters <= 254; a u16 build is "
+        "replayed through the model at P=65535 with lengths up to 1000 (thorough 5000); the f32 build is replayed at single-precision allowance.",
+   note=COMMON_NOTE + NUM_NOTE + "PARTIAL: feature builds are compiled artefacts compared differentially. Cases whose parameters the default "
+        "build rejects (e.g. WSMA > 127) are outside 'parameters that fit the default type' and skipped in the cross-build comparison.",
+   ref="DESIGN.md §5 C20"),
 }
 
 checks = []
